@@ -84,7 +84,7 @@ CATALOGUES["permg"] = dict(version="gfa2", lines=[
 ], ids=["a", "b", "u6", "u7", "o8"], renames=[])
 CATALOGUES["perml"] = dict(version="gfa1", lines=[
     "S|A|*", "S|B|*", "L|A|-|A|-|1M", "L|A|+|B|+|*", "L|B|+|B|+|2M1D1M", "P|p|A+,A+,B+|*",
-    "P|q|B-,A-,A-|*", "P|r|B+,B+|2M1D1M", "P|s|B-,B-,A-|1M1I2M,*",
+    "P|q|B-,A-,A-|*", "P|r|B+,B+|2M1D1M", "P|s|B-,B-,A-|1M1I2M,*", "L|A|+|A|-|2M", "P|h|A+,A-|*",
 ], ids=["A", "B", "p", "q"], renames=[])
 # version queue with clashing identifiers (known findings of C08: the flush is not transactional)
 CATALOGUES["kfq"] = dict(version="none", lines=[
@@ -97,6 +97,13 @@ CATALOGUES["ver"] = dict(version="none", lines=[
     "E|e|a+|b+|0|1|2|3$|*", "F|a|x+|0|1|0|1|*", "G|g|a+|b-|5|*", "O|o|a+ b+", "U|u|a b",
     "X|custom|1", "#| c",
 ], ids=["A", "a"], renames=[])
+
+
+# segment names that look like tags (both versions allow ':' in a name): the syntax decides the version
+CATALOGUES["vern"] = dict(version="none", lines=[
+    "S|ab:Z:x|*", "S|ab:Z:x|3|*", "S|cd:i:1|*|LN:i:4", "S|cd:i:1|4|*|xx:Z:y", "S|B|ACGT|xx:i:1",
+    "L|ab:Z:x|+|B|+|*", "E|e|ab:Z:x+|cd:i:1-|0|1|2|3$|*", "H|VN:Z:1.0", "H|VN:Z:2.0", "P|p|ab:Z:x+,B+|*",
+], ids=["ab:Z:x", "B"], renames=[])
 
 
 CATALOGUES["rgfa"] = dict(version="none", lines=[
@@ -635,10 +642,18 @@ ORDER_CLAUSES = {"lines", "hdr", "version", "virtual", "shadow", "keys", "nbrs",
                  "res.notunique", "res.version", "components", "counts"}
 
 
+LINK_CLAUSES = {"lines", "res.refused", "res.accepted", "keys", "nbrs", "counts", "virtual", "C02.sym", "C02.closed"}
+
+
 def attribute(clauses, kind):
     props = set()
     for c in clauses:
         p = CLAUSE_PROP.get(c, "C05")
+        if kind == "link" and c in LINK_CLAUSES:
+            # a history of one link, its complement and paths over either form: what is stored after
+            # each of these additions is what C12 states ("adds nothing and raises nothing", "path
+            # resolution finds the stored link from either form")
+            props.add("C12")
         if kind == "perm":
             if p == "C05":
                 p = "C03"
